@@ -34,7 +34,7 @@
    completed (the guard of the model; liveness - "the shutdown still completes" - is not proved here). *)
 From Coq Require Import List ZArith NArith Bool.
 From PC.Base Require Import Assoc.
-From PC.Sup Require Import Model Monitors Sim MonC12w SimC12 ExC12.
+From PC.Sup Require Import Model Monitors Sim MonC12w SimC12 EnC12 ExC12.
 Import ListNotations.
 
 Theorem C12_main_partial : forall cs ord evs s,
@@ -107,3 +107,90 @@ Example C12_nonvacuous :
   W_C12 (final_obs ex_cs ex_good) = false /\ c12_side ex_cs ex_good = true /\ c12_noforeign ex_cs ex_good = true /\
   holds_C12 true ex_cs ex_good = true /\ holds_C12w true ex_cs ex_good = true.
 Proof. exact ex_good_ok. Qed.
+
+(* ---- last clause of C12: "processes unrelated by dependencies may stop concurrently, and the shutdown still
+   completes".  What follows are ENABLEDNESS facts about the model (Sup/EnC12.v): which ordered_go steps the model
+   offers in every reachable state.  They contain no fairness assumption and no termination argument: they say that
+   the ordered shutdown is never stuck on its own bookkeeping, not that it ends (that also needs the signalled
+   commands to exit and the scheduler to run the workers; it stays a scheduler-level test of the check).
+   [fresh s th] = thread id th has no entry in threads/thinst of s (the goroutine shutDownInOrder starts for one
+   process); [worker_started th i s] = s with that thread about to call shutDown() on i;
+   [dependents_done s order i] = the guard of the model: every member of the snapshot whose configuration depends on
+   i's name has completed (waitForCompletion returned). ---- *)
+
+(* 1. in every reachable state with an ordered shutdown in progress, a member whose dependents in the snapshot
+   are done can be given its go by a fresh worker ... *)
+Theorem C12_worker_can_go : forall cs evs s sdth order i th,
+  accept (init cs true) evs = Some s -> sd_active s = Some (sdth, order) ->
+  In i order -> dependents_done s order i = true -> fresh s th ->
+  step s (th, EOrderedGo i) = Some (worker_started th i s) /\
+  accept (init cs true) (evs ++ [(th, EOrderedGo i)]) = Some (worker_started th i s).
+Proof. exact worker_can_go. Qed.
+Print Assumptions C12_worker_can_go.
+
+(* ... and if the model refuses the go of a fresh worker, the reason is a dependent of i in the snapshot that has
+   not completed: the ordered shutdown waits for nothing else *)
+Theorem C12_worker_blocked_only_by_dependent : forall cs evs s sdth order i th,
+  accept (init cs true) evs = Some s -> sd_active s = Some (sdth, order) -> In i order -> fresh s th ->
+  step s (th, EOrderedGo i) = None ->
+  exists x j y, get i (insts s) = Some x /\ In j order /\ get j (insts s) = Some y /\
+                In (nm x) (map fst (deps (cf y))) /\ l_done y = false.
+Proof. exact worker_blocked_only_by_dependent. Qed.
+Print Assumptions C12_worker_blocked_only_by_dependent.
+
+(* 2. two members whose dependents are done (in particular: two processes unrelated by dependencies once their
+   own dependents have completed) get their go in either order - neither go disables the other ... *)
+Theorem C12_independent_concurrent : forall cs evs s sdth order i j thi thj,
+  accept (init cs true) evs = Some s -> sd_active s = Some (sdth, order) ->
+  In i order -> In j order -> dependents_done s order i = true -> dependents_done s order j = true ->
+  fresh s thi -> fresh s thj -> thi <> thj ->
+  accept (init cs true) (evs ++ [(thi, EOrderedGo i); (thj, EOrderedGo j)]) =
+    Some (worker_started thj j (worker_started thi i s)) /\
+  accept (init cs true) (evs ++ [(thj, EOrderedGo j); (thi, EOrderedGo i)]) =
+    Some (worker_started thi i (worker_started thj j s)).
+Proof. exact independent_concurrent. Qed.
+Print Assumptions C12_independent_concurrent.
+
+(* ... and the go of j stays enabled whatever any thread does afterwards (other workers stopping their processes,
+   API calls, exits), as long as this shutdown is in progress: the guard is never withdrawn *)
+Theorem C12_go_stays_enabled : forall cs evs s sdth order j evs2 s2 th,
+  accept (init cs true) evs = Some s -> sd_active s = Some (sdth, order) ->
+  In j order -> dependents_done s order j = true ->
+  accept s evs2 = Some s2 -> sd_active s2 = Some (sdth, order) -> fresh s2 th ->
+  dependents_done s2 order j = true /\ step s2 (th, EOrderedGo j) = Some (worker_started th j s2).
+Proof. exact go_stays_enabled. Qed.
+Print Assumptions C12_go_stays_enabled.
+
+(* 3. no cyclic wait: if the dependency graph of the configuration is acyclic ([ranked cs rank]: every dependency
+   has a smaller rank) and some member of the snapshot has not completed, then some uncompleted member has all its
+   dependents done - so some worker can always go *)
+Theorem C12_no_cyclic_wait : forall cs rank evs s sdth order,
+  ranked cs rank -> accept (init cs true) evs = Some s -> sd_active s = Some (sdth, order) ->
+  all_done s order = false ->
+  exists i x, In i order /\ get i (insts s) = Some x /\ l_done x = false /\ dependents_done s order i = true.
+Proof. exact no_cyclic_wait. Qed.
+Print Assumptions C12_no_cyclic_wait.
+
+Theorem C12_some_worker_can_go : forall cs rank evs s sdth order,
+  ranked cs rank -> accept (init cs true) evs = Some s -> sd_active s = Some (sdth, order) ->
+  all_done s order = false ->
+  exists i x, In i order /\ get i (insts s) = Some x /\ l_done x = false /\
+    forall th, fresh s th -> step s (th, EOrderedGo i) = Some (worker_started th i s).
+Proof. exact some_worker_can_go. Qed.
+Print Assumptions C12_some_worker_can_go.
+
+(* non-vacuity of the enabledness theorems: three running processes (2 depends on 1, 3 unrelated), the ordered
+   shutdown has taken its snapshot [13; 12; 11]: the workers of 12 and 13 can go in either order, the worker of 11
+   cannot; the configuration is ranked by the process number *)
+Example C12_enabledness_nonvacuous :
+  ranked ex3_cs N.to_nat /\
+  exists s,
+  accept (init ex3_cs true) ex3_pre = Some s /\ sd_active s = Some (300%N, [13; 12; 11]%N) /\
+  all_done s [13; 12; 11]%N = false /\
+  dependents_done s [13; 12; 11]%N 12%N = true /\ dependents_done s [13; 12; 11]%N 13%N = true /\
+  dependents_done s [13; 12; 11]%N 11%N = false /\
+  get 400%N (threads s) = None /\ get 400%N (thinst s) = None /\ get 401%N (threads s) = None /\ get 401%N (thinst s) = None /\
+  step s (400%N, EOrderedGo 11%N) = None /\
+  (exists s2, accept s [(400%N, EOrderedGo 12%N); (401%N, EOrderedGo 13%N)] = Some s2) /\
+  (exists s2, accept s [(401%N, EOrderedGo 13%N); (400%N, EOrderedGo 12%N)] = Some s2).
+Proof. split; [exact ex3_ranked|exact ex3_enabledness]. Qed.
